@@ -12,7 +12,7 @@ META = {
     "level": "proof",
     "trusted_base": ["Python ast parser", "gmpy2.invert(x, m) * x == 1 (mod m)", "`% mod` preserves congruence", "pcstatic walker + exact polynomial arithmetic",
                      "checker-side affine EC arithmetic and Miller-Rabin (40 fixed bases) for the curve constants"],
-    "assumptions": ["Montgomery's array invariants in BatchInverse are not decided (its use sites are: R-C11-FORMULA clears the shared inverse as a rational function)",
+    "assumptions": ["BatchInverse: declared invariants of Montgomery's trick checked per path in an exponent domain (R-C11-BATCHINV); gmpy2.invert(x, p) * x == 1 (mod p) for x != 0 (mod p)",
                     "comb: the bit-decomposition identity sum_i 2^i * ((s >> i) & mask) = s for 0 <= s < 2^(teeth*steps) is a stated lemma; its side conditions are checked",
                     "primality of mod and n is probabilistic (error <= 4^-40)"],
     "explanation": ("Every formula block of ec_util.EcCurve is evaluated symbolically to polynomials (reductions stripped as congruences, inverses cleared as "
@@ -81,6 +81,8 @@ def run(ctx):
   rule_curves(ctx)
   rule_scalar(ctx)
   rule_comb(ctx)
+  rule_batchinv(ctx)
+  ctx.expect("R-C11-BATCHINV", 1, "BatchInverse")
   ctx.expect("R-C11-COMB", 4, "reduction, multiplier, tiling, Horner")
   ctx.expect("R-C11-SCALAR", 2, "Multiply and MultiplyAffine")
   ctx.expect("R-C11-FORMULA", 15, "15 formula blocks")
@@ -1034,3 +1036,141 @@ def rule_comb(ctx):
 
 def rebuild_elt(elt, bv, k):
   return sym.rebuild(elt.deep_subst(bv, as_poly(k)))
+
+
+# ------------------------------------------------------------------ BATCHINV: Montgomery's simultaneous inversion
+def rule_batchinv(ctx):
+  """Declared invariants, checked by symbolic execution of one iteration in an exponent domain relative to the current index i:
+  a value is pre(i)^a * val(i)^b with pre(i) = product of the non-zero values before i; pre(i+1) = pre(i)*val(i) when val(i) is
+  non-zero and pre(i) otherwise (reductions modulo p are congruences)."""
+  R = "R-C11-BATCHINV"
+  repo = ctx.repo
+  f, w = walk(repo, "BatchInverse")
+  values = P("param", [q for q in f.params() if q != "self"][0])
+  fors = [i for i in w.loop_info.values() if isinstance(i["node"], ast.For) and i["visits"]]
+  fwd = [i for i in fors if not isinstance(i["iter"], Seq) and as_poly(i["iter"]) == sym.mk("enumerate", values)]
+  n = sym.mk("len", values)
+  bwd = [i for i in fors if not isinstance(i["iter"], Seq) and as_poly(i["iter"]) == sym.mk("range", n - 1, Poly.const(-1), Poly.const(-1))]
+  if len(fwd) != 1 or len(bwd) != 1:
+    raise Incomplete("BatchInverse: expected a forward pass over enumerate(values) and a backward pass over range(len(values) - 1, -1, -1)", f.where)
+  fwd, bwd = fwd[0], bwd[0]
+
+  def strip(p):
+    a = as_poly(p).as_atom()
+    while a is not None and a.kind == "mod" and as_poly(a.args[1]) == M:
+      p = a.args[0]
+      a = as_poly(p).as_atom()
+    return as_poly(p)
+
+  def expo(p, base):
+    """(a, b) with p = pre(i)^a * val(i)^b, via base: {atom: (a, b)}; None when p is not such a monomial."""
+    p = strip(p)
+    if p.as_int() == 1:
+      return (0, 0)
+    if len(p.t) != 1:
+      return None
+    (mono, c), = p.t.items()
+    if c != 1:
+      return None
+    ea = eb = 0
+    for at, e in mono:
+      if at in base:
+        ea += base[at][0] * e
+        eb += base[at][1] * e
+      elif at.kind == "mod" and as_poly(at.args[1]) == M:
+        sub = expo(Poly.atom(at), base)
+        if sub is None:
+          return None
+        ea += sub[0] * e
+        eb += sub[1] * e
+      else:
+        return None
+    return (ea, eb)
+
+  probs = []
+  # ---- forward pass: product = pre(i); res[i] = pre(i) for non-zero val(i)
+  vis = fwd["visits"][0]
+  k = as_poly(vis["k"])
+  head = vis["head"].env
+  names = [x for x in fwd["modified"] if x in head and x in vis["pre_env"] and isinstance(vis["pre_env"][x], (Const, Poly)) and as_poly(vis["pre_env"][x]).as_int() == 1]
+  lists = [x for x in fwd["modified"] if x in head and vis["pre_env"].get(x) is not None and not isinstance(vis["pre_env"][x], Seq)
+           and as_poly(vis["pre_env"][x]) == sym.mk("listrep", sym.mk("seq", P("lit", "None")), n)]
+  if len(names) != 1 or len(lists) != 1:
+    raise Incomplete("BatchInverse: running product (starts at 1) / result list (starts as [None] * len(values)) not identified", f.where)
+  prod, res = names[0], lists[0]
+  PH, RH = as_poly(head[prod]), as_poly(head[res])
+  val_k = sym.mk("idx", values, k)
+  base = {PH.as_atom(): (1, 0), val_k.as_atom(): (0, 1)}
+  n_paths = 0
+  for kind, v_, s, since, v2 in fwd["body_paths"]:
+    if v2 is not vis:
+      continue
+    n_paths += 1
+    if kind != "fall":
+      probs.append("forward pass left by %s" % kind)
+      continue
+    newf = s.facts[len(vis["head"].facts):]
+    nz = any(fc[0] == "truthy" and as_poly(fc[1]) == val_k for fc in newf) or any(fc[0] == "cmp" and fc[1] == "NotEq" and not isinstance(fc[2], Seq) and as_poly(fc[2]) == val_k and as_poly(fc[3]).is_zero() for fc in newf)
+    z = any(fc[0] == "falsy" and as_poly(fc[1]) == val_k for fc in newf)
+    if nz == z:
+      probs.append("forward pass: a path does not decide whether values[i] is zero/None")
+      continue
+    e = expo(s.env[prod], base) if not isinstance(s.env[prod], Seq) else None
+    want = (1, 1) if nz else (1, 0)
+    if e != want:
+      probs.append("forward pass: the running product is not the product of the non-zero values up to i (%s path)" % ("non-zero" if nz else "zero"))
+    stores = [x for x in (w.events[i] for i in s.trace if i >= since) if x.kind == "store" and as_poly(x.data["base"]) == RH]
+    if nz:
+      if len(stores) != 1 or as_poly(stores[0].data["index"]) != k or expo(stores[0].data["value"], base) != (1, 0):
+        probs.append("forward pass: res[i] is not the prefix product before values[i]")
+    elif stores:
+      probs.append("forward pass: a zero/None entry gets a value")
+  # ---- the inversion between the passes
+  vb = bwd["visits"][0]
+  kb = as_poly(vb["k"])
+  headb = vb["head"].env
+  ib = n - kb - 1
+  invs = [x for x in bwd["modified"] if x in headb and vb["pre_env"].get(x) is not None and not isinstance(vb["pre_env"][x], Seq)
+          and as_poly(vb["pre_env"][x]) == sym.mk("invert", as_poly(vis["after_env"][prod]), M)]
+  if len(invs) != 1:
+    probs.append("the backward pass does not start from invert(product of all non-zero values, p)")
+  else:
+    inv = invs[0]
+    IH, RB = as_poly(headb[inv]), as_poly(headb[res])
+    if as_poly(vb["pre_env"][res]) != as_poly(vis["after_env"][res]):
+      probs.append("the result list is replaced between the passes")
+    val_i = sym.mk("idx", values, ib)
+    # relative to index i: inverse = (pre(i) * val(i))^-1 on entry if val(i) non-zero, pre(i)^-1 otherwise; untouched res[i] = pre(i)
+    for kind, v_, s, since, v2 in bwd["body_paths"]:
+      if v2 is not vb:
+        continue
+      n_paths += 1
+      if kind != "fall":
+        probs.append("backward pass left by %s" % kind)
+        continue
+      newf = s.facts[len(vb["head"].facts):]
+      nz = any(fc[0] == "truthy" and as_poly(fc[1]) == val_i for fc in newf) or any(fc[0] == "cmp" and fc[1] == "NotEq" and not isinstance(fc[2], Seq) and as_poly(fc[2]) == val_i and as_poly(fc[3]).is_zero() for fc in newf)
+      z = any(fc[0] == "falsy" and as_poly(fc[1]) == val_i for fc in newf)
+      if nz == z:
+        probs.append("backward pass: a path does not decide whether values[i] is zero/None")
+        continue
+      baseb = {IH.as_atom(): (-1, -1) if nz else (-1, 0), val_i.as_atom(): (0, 1), sym.mk("idx", RB, ib).as_atom(): (1, 0)}
+      e = expo(s.env[inv], baseb) if not isinstance(s.env[inv], Seq) else None
+      if e != (-1, 0):
+        probs.append("backward pass: after index i the running inverse is not the inverse of the prefix product before i (%s path)" % ("non-zero" if nz else "zero"))
+      stores = [x for x in (w.events[i] for i in s.trace if i >= since) if x.kind == "store" and as_poly(x.data["base"]) == RB]
+      if nz:
+        if len(stores) != 1 or as_poly(stores[0].data["index"]) != ib or expo(stores[0].data["value"], baseb) != (0, -1):
+          probs.append("backward pass: res[i] is not prefix(i) * inverse(prefix(i) * values[i]) = 1 / values[i]")
+      elif stores:
+        probs.append("backward pass: a zero/None entry gets a value")
+    # ---- result: the list after the backward pass, on every return
+    for kind, val, s in w.terminals:
+      if kind == "return" and (isinstance(val, Seq) or as_poly(val) != as_poly(vb["after_env"][res])):
+        lens = any(fc[0] == "falsy" and as_poly(fc[1]) == values for fc in s.facts) or any(fc[0] == "cmp" and fc[1] == "Eq" and not isinstance(fc[2], Seq) and as_poly(fc[2]) == n and as_poly(fc[3]).is_zero() for fc in s.facts)
+        if not lens:
+          probs.append("a return hands out the list before the backward pass has turned the prefix products into inverses (%s)" %
+                       (" & ".join("%s %s %s" % (fc[1], fc[2], fc[3]) for fc in s.facts if fc[0] == "cmp")[:120] or "unconditional"))
+  ctx.record(R, f.where, "Montgomery's trick: res[i] = values[i]^-1 for non-zero entries, None otherwise", not probs, "; ".join(sorted(set(probs))) or
+             "forward: product = pre(i), res[i] = pre(i); inverse = pre(n)^-1; backward (i = n-1 .. 0): res[i] = pre(i) * (pre(i)*v_i)^-1 = v_i^-1, inverse = pre(i)^-1; "
+             "zero/None entries are skipped in both passes; %d paths; the list is returned only after the backward pass" % n_paths)
